@@ -31,6 +31,8 @@ inductive Step where
   | evmAdd (a : Nat) (d : Int)   -- a balance change made by the interpreter in the thread's StateDB
   | bankAdd (a : Nat) (d : Int)  -- a bank operation on the thread's own context, then SyncStateDBWithAccount
   | commit                       -- StateDB.Commit: the view is written into the context the StateDB is bound to
+  | flush                        -- CommitCacheCtx at a precompile entry (OnRunStart): the same write-back, in the middle of a call;
+                                 -- Keeper.SetAccBalance writes through the embedded BaseKeeper, so nothing is mirrored (T1 fact)
   | clear                        -- defer func() { k.Bank.StateDB = nil }()
 deriving Repr, DecidableEq
 
@@ -62,6 +64,10 @@ def exec (me : Who) (w : W) : Step → W
     match handle w me with
     | some p => setStore w p (db w p)
     | none => w
+  | .flush =>
+    match handle w me with
+    | some p => setStore w p (db w p)
+    | none => w
   | .clear => { w with ptr := none }
 
 /-- an interleaving: `true` = the block thread takes the next step -/
@@ -74,9 +80,10 @@ def run (w : W) : List Step → List Step → List Bool → W
 def runAlone (w : W) (ts : List Step) : W := ts.foldl (exec .T) w
 
 /-- steps of query kinds that neither read nor write the shared pointer: EthCall / EstimateGas without a bank-moving
-    precompile (private StateDB, interpreter steps), and plain reads (no steps at all) -/
+    precompile (private StateDB, interpreter steps, the flush of that private StateDB when a precompile is entered), and plain
+    reads (no steps at all) -/
 def Step.isolated : Step → Bool
-  | .privateNew | .evmAdd _ _ => true
+  | .privateNew | .evmAdd _ _ | .flush => true
   | _ => false
 
 /-! concrete programs -/
@@ -86,6 +93,9 @@ def blockTx : List Step := [.useOrPublish, .evmAdd 1 (-3), .bankAdd 2 (-5), .ban
 def ethCallBank : List Step := [.privateNew, .bankAdd 2 (-7), .bankAdd 4 7]
 /-- Simulate of an Ethereum tx (gas estimation through the tx service) -/
 def simulateEthTx : List Step := [.useOrPublish, .evmAdd 5 9, .commit, .clear]
+/-- eth_call that carries value into a precompile query method: the value transfer dirties the caller in the private StateDB, the
+    precompile entry flushes it into the query's own branch -/
+def ethCallValuePrecompileQuery : List Step := [.privateNew, .evmAdd 2 (-7), .evmAdd 8 7, .flush]
 def genesis : W := { storeT := fun a => if a ≤ 5 then 100 else 0, storeQ := fun a => if a ≤ 5 then 100 else 0 }
 
 end Nibiru.Concurrency
